@@ -378,9 +378,13 @@ func sameDenotation(a jsonapi.Attr, x, y *jnode) bool {
 	if x.kind == "null" || y.kind == "null" {
 		// a nil byte slice is written as null and an empty one as "": both empty
 		if a.Type == jsonapi.AttrTypeBytes && !a.Nullable {
-			e1 := x.kind == "null" || (x.kind == "str" && x.s == "") || (x.kind == "arr" && len(x.arr) == 0)
-			e2 := y.kind == "null" || (y.kind == "str" && y.s == "")
-			return e1 && e2
+			// null stays null (the recorded finding accepts it); an empty byte string,
+			// written "" or [], comes back as "" -- not as null
+			if x.kind == "null" {
+				return y.kind == "null"
+			}
+			emptyX := (x.kind == "str" && x.s == "") || (x.kind == "arr" && len(x.arr) == 0)
+			return emptyX && y.kind == "str" && y.s == ""
 		}
 		return x.kind == y.kind
 	}
